@@ -341,7 +341,9 @@ Definition bspec_ok (c : bcase) : bool :=
 Inductive xcopt := XDial (tag : nat) | XNonBlock | XTimeout (ms : Z) | XCreds | XUnary | XStream.
 
 Record ccase := mkccase {
-  cc_backends : nat;            (* in-process grpc servers behind direct:///a,b[,c] *)
+  cc_backends : nat;            (* in-process grpc servers behind the target *)
+  cc_manual : bool;             (* target form: false direct:///a,b[,c]; true a comma-less target whose (manual) resolver
+                                   returns the backends -- the wiring and the clauses do not depend on it *)
   cc_opts : list xcopt;         (* the ClientOptions handed to NewClient, in order *)
   cc_min_calls : Z;
   cc_labels : list Z;           (* observed: the assembled dial options; tag of a user option, -2 the balancer's
@@ -401,7 +403,11 @@ Inductive mop :=
 | MDone (p k : nat) (code flags : Z) (msg : nat)
 | MAdv (dt : Z).
 
-Record mcase := mkmcase { m_start : Z; m_steps : list (mop * xobs) }.
+Record mcase := mkmcase {
+  m_start : Z;
+  m_health : Z;    (* observed: base.Config.HealthCheck of the registered balancer builder (1 true, 0 false, -1 not observable) *)
+  m_steps : list (mop * xobs)
+}.
 
 Definition id_col (row : list Z) : Z := nth 6 row (-1).
 Definition sizes_off (sizes : list nat) (p : nat) : nat := fold_right Nat.add 0%nat (firstn p sizes).
@@ -467,7 +473,8 @@ Fixpoint mmodel_steps (w : list (option st)) (t : Z) (gd : list (list Z)) (steps
       end
   end.
 
-Definition mmodel_ok (c : mcase) : bool := mmodel_steps [] (m_start c) [] (m_steps c).
+(* newBuilder (p2c.go:39-41) registers the picker builder with base.Config{HealthCheck: true} *)
+Definition mmodel_ok (c : mcase) : bool := negb (m_health c =? 0) && mmodel_steps [] (m_start c) [] (m_steps c).
 
 (* ---- spec: every picker owns its connections ---- *)
 Record mpk := mkmpk { k_n : nat; k_ready : list nat; k_order : list nat; k_sst : sst }.
@@ -528,7 +535,8 @@ Fixpoint mspec_steps (ps : list mpk) (t : Z) (gd : list (list Z)) (steps : list 
       end
   end.
 
-Definition mspec_ok (c : mcase) : bool := mspec_steps [] (m_start c) [] (m_steps c).
+(* "ready" means serving: the balancer is registered with health checking enabled *)
+Definition mspec_ok (c : mcase) : bool := negb (m_health c =? 0) && mspec_steps [] (m_start c) [] (m_steps c).
 
 Inductive case := CB (b : bcase) | CC (c : ccase) | CM (m : mcase).
 Definition model_ok (c : case) : bool := match c with CB b => bmodel_ok b | CC c => cmodel_ok c | CM m => mmodel_ok m end.
